@@ -6,6 +6,7 @@ from __future__ import annotations
 
 from ..core import Rule
 from . import engine_rules as E
+from .memo_rules import memo_keys_rule
 
 EXPLANATION = (
     'Static rules over fpy2/ops.py, the MPFR engine and the round-to-odd wrapper, restricted to the elementary and '
@@ -32,6 +33,7 @@ RULES = [
     Rule('C03.F1', 'round-to-odd wrapper: RoundToZero, prec+2 digits, ternary of the fixed value, sticky fold', E.f1_round_to_odd, 12, 'F'),
     Rule('C03.F2', 'every callable handed to the wrapper is a single MPFR operation (ternary describes the whole value)', E.f2_single_operation('C03'), 35, 'F'),
     Rule('C03.S3', 'local MPFR wrappers compute the operation they are named after (neg, abs, pow, lgamma = first component of gmp.lgamma)', E.s3_wrapper_primitives, 4, 'S,T'),
+    Rule('C03.M1', 'a remembered engine result is keyed by every input it was computed from', memo_keys_rule(('fpy2/number/engine/', 'fpy2/number/gmputils.py', 'fpy2/ops.py'), 'operands, precision and digit position'), 1, 'M'),
     Rule('C03.F3', 'round_params widens the engine precision by the stochastic bits in every family', E.f3_round_params, 10, 'S'),
 ]
 
@@ -41,6 +43,14 @@ OPS, GMP, GU = E.OPS, E.GMP, E.GMPUTILS
 CTX = 'fpy2/number/context/'
 
 MUTANTS = [
+    Mutant('constant-remembered-by-precision', GMP, "    try:\n        fn = _constant_exprs[x]\n        return mpfr_call(fn, (), prec=prec, n=n)\n    except KeyError as e:\n        raise ValueError(f'unknown constant {e.args[0]!r}') from None\n",
+           "    try:\n        fn = _constant_exprs[x]\n        if (x, prec) not in _constants_done:\n            _constants_done[(x, prec)] = mpfr_call(fn, (), prec=prec, n=n)\n        return _constants_done[(x, prec)]\n"
+           "    except KeyError as e:\n        raise ValueError(f'unknown constant {e.args[0]!r}') from None\n\n\n_constants_done: dict = {}\n", 'C03.M1',
+           'seeded change C03c: every fixed-point context asks with prec = None, so the coarsest one to ask first decides for all'),
+    Mutant('constant-remembered-fully-keyed', GMP, "    try:\n        fn = _constant_exprs[x]\n        return mpfr_call(fn, (), prec=prec, n=n)\n    except KeyError as e:\n        raise ValueError(f'unknown constant {e.args[0]!r}') from None\n",
+           "    try:\n        fn = _constant_exprs[x]\n        if (x, prec, n) not in _constants_done:\n            _constants_done[(x, prec, n)] = mpfr_call(fn, (), prec=prec, n=n)\n        return _constants_done[(x, prec, n)]\n"
+           "    except KeyError as e:\n        raise ValueError(f'unknown constant {e.args[0]!r}') from None\n\n\n_constants_done: dict = {}\n", 'C03.M1',
+           'keyed by everything the computation reads', expect='silent'),
     Mutant('lgamma-is-log-of-gamma', GMP, "    y, _ = gmp.lgamma(x)\n    return y", "    return gmp.lngamma(x)", 'C03.S3',
            'seeded change C03b: lgamma(-0.5) becomes NaN (gamma is negative there)'),
     Mutant('lgamma-returns-the-sign', GMP, "    y, _ = gmp.lgamma(x)\n    return y", "    _, y = gmp.lgamma(x)\n    return y", 'C03.S3'),
